@@ -57,6 +57,22 @@ func init() {
 	replayers["schedule"] = func(prop string, c *Case) []*Violation {
 		return drvReg[c.Driver].sched(prop, c, oraclesFor(prop, c.Driver))
 	}
+	replayers["hang"] = func(prop string, c *Case) []*Violation {
+		// one-shot and every two-chunk schedule of the recorded prefix, each under a timeout
+		n := len(c.input())
+		for cut := 0; cut < n; cut++ {
+			cc := *c
+			cc.Kind = "schedule"
+			cc.Cuts = []int{n}
+			if cut > 0 {
+				cc.Cuts = []int{cut, n}
+			}
+			if !runWithTimeout(30*time.Second, func() { drvReg[c.Driver].sched("C04", &cc, Oracles{Sanity: true}) }) {
+				return []*Violation{{Property: prop, Site: c.Driver, Rule: "call-returns", Class: "hang", Detail: fmt.Sprintf("schedule %v did not return within 30s", cc.Cuts), Case: c}}
+			}
+		}
+		return nil
+	}
 	replayers["extension"] = func(prop string, c *Case) []*Violation {
 		return drvReg[c.Driver].ext(prop, c, oraclesFor(prop, c.Driver))
 	}
